@@ -10,7 +10,8 @@
   §4  processSig_run, c01_guard_initiator, processSig_accepts, c01_guard_initiator_throw,
         processDHKey_run, c01_guard_dhkey, processDHKey_throw.
   §1  frames BaseFrame ⊂ StrictFrame ⊂ QuietFrame and *_base / *_strict / *_quiet lemmas for every function on the
-        AKE paths; processAKE_run_some / _none (decomposition into akeRest / akeDispatch / akeTail);
+        AKE paths; processAKE_run_some / _none (decomposition into akeRest / akeDispatch / akeTail; repaired
+        code: the conditional time stamp at the end is akeStamp / akeStampCond, with akeStamp_run and stampAke);
         processAKE_quiet, processAKE_strict, processAKE_strict_nonfinishing (repaired code: no
         retransmission after an ignored message; retransmitOrReveal_quiet,
         retransmitAfterCompletedExchange_quiet), processAKE_strict_idle, c01_paths, c01_paths_keys_any,
